@@ -76,5 +76,32 @@ for c in man["checks"]:
     out.append("**%s** — obligations %s (discharged %s), quick evaluations %s. Technique: %s\n\n%s\n\nTrusted / assumed: %s %s\n" % (
         pid, cov.get("obligations", "?"), cov.get("discharged", "?"), cov.get("evaluations", "?"), c.get("technique", ""),
         c["level_claimed"]["text"], c["level_note"], ("(" + ax[0] + ")") if ax else ""))
+out.append("### 9.6 Trusted base as measured (generated from the `Print Assumptions` output each check stores in its evidence)\n")
+out.append("`assumptions_by_theorem` in evidence/<id>.json maps every property theorem to what `Print Assumptions` printed under it on that run.\n"
+           "Entries named `PrimFloat.*` / `PrimInt63.*` are the kernel's primitive machine types and operations (not axioms of mine);\n"
+           "`FloatAxioms.*` are the standard library's specification of those primitives against `SpecFloat`;\n"
+           "`ClassicalDedekindReals.*`, `Classical_Prop.classic`, `functional_extensionality_dep` come with `Coq.Reals` / Flocq.\n"
+           "No file declares an axiom itself (tools/lint_coq.py, run by setup.sh: Axiom/Parameter/Conjecture/Admitted/admit,\n"
+           "Variable/Hypothesis outside a Section, guard switches).  No `native_compute` anywhere.  Extraction uses `ExtrOcamlBasic` only,\n"
+           "no `Extract Constant` / `Extract Inductive` directive of its own (grep over coq/ and coq/extract/); the directives in force are\n"
+           "exactly those of Coq 8.16.1's ExtrOcamlBasic.v: `Extract Inductive` bool => bool, option => option, unit => unit, list => list,\n"
+           "prod => ( * ), sumbool => bool, sumor => option; `Extract Inlined Constant` andb => (&&), orb => (||).  nat, positive, N, Z, Q,\n"
+           "Qc, ascii and string stay the extracted Coq datatypes (no machine integers), so no overflow can hide in the extracted models.\n")
+out += ["| property | theorems with Print Assumptions | closed under the global context | library axioms / primitives relied on by the others |", "|---|---|---|---|"]
+for c in man["checks"]:
+    pid = c["property_id"]
+    try:
+        abt = json.load(open(V + "/evidence/%s.json" % pid))["coverage"].get("assumptions_by_theorem", {})
+    except Exception:
+        abt = {}
+    ne = {k: v for k, v in abt.items() if v}
+    tot = set()
+    for v in ne.values():
+        tot |= {str(x) for x in v}
+    real = sorted(x for x in tot if not (x.startswith("PrimFloat.") or x.startswith("PrimInt63.") or "." not in x))
+    prim = len(tot) - len(real)
+    txt = ", ".join(real) + ((" + " if real else "") + "%d primitive float/int63 operations" % prim if prim else "")
+    out.append("| %s | %d | %d | %s |" % (pid, len(abt), len(abt) - len(ne), (txt + " (in: " + ", ".join(sorted(ne)) + ")") if ne else "-"))
+out.append("")
 open(V + "/DESIGN.md", "w").write(head + "\n".join(out) + "\n")
 print("DESIGN.md regenerated: %d fixed rows, %d findings, %d seeded, %d properties" % (len(fixed), len(seen), sum(stats.values()), len(man["checks"])))
